@@ -17,7 +17,7 @@ InsnSmall == 25
 TokFuel   == InsnSmall * (Len(toks) + 1) + 1
 InsnBig   == 2000
 
-Ref   == S!SRun(toks, S!SBoot, TokFuel)
+Ref   == S!SEval(toks, TokFuel)
 VmBig == X!Submit([X!Boot EXCEPT !.ilim = InsnBig], X!Label(toks, 1), "eval")
 VmSmall == X!Submit([X!Boot EXCEPT !.ilim = InsnSmall], X!Label(toks, 1), "eval")
 
